@@ -132,7 +132,8 @@ def run_check(prop, tier, replay_path=None):
         uncovered = []
     status = 0
     by_obl = collections.OrderedDict()
-    for v in failing:
+    # the representative of an obligation is its first (smallest) failing case that was actually executed
+    for v in sorted(failing, key=lambda v: "too-many-crashes" in str(v.get("impl"))):
         by_obl.setdefault(v["obligation"], v)
     for ob, v in list(by_obl.items())[:6]:
         p = write_replay(prop, v, {"seed": seed, "tier": tier})
